@@ -504,6 +504,7 @@ impl World {
             Ev::RawOpen { r, ct, aad, tag } => self.ev_raw_open(*r, ct, aad, tag.as_ref().map(|t| &t.0[..]), cov),
             Ev::On { inner, .. } => self.apply(inner, cov),
             Ev::RejectBurst { r, from, n } => self.ev_reject_burst(*r, *from, *n, cov),
+            Ev::VolumePump { c, n, len } => self.ev_volume_pump(*c, *n, *len, cov),
             Ev::ExportBurst { c, role, n, len } => {
                 let ctx = [7u8, 7, 7];
                 for i in 0..*n {
